@@ -157,6 +157,16 @@ def analyse_scope(prog, cg, scope, libcalls=False):
             an.entry_bounds[fid] = assume
             if fid not in changed:
                 changed.append(fid)
+    # closures driven over a Range by find / any / all / ...: facts of the (only) call site about the item and the captured values
+    for fid, sites in sorted(an.site_facts.items()):
+        if fid not in scope or fid not in prog.fns:
+            continue
+        uses = [s for s in cg.sites_to(fid)]
+        if len(sites) != 1 or len(uses) != 1 or any(s.caller.id not in scope for s in uses):
+            continue
+        an.entry_facts[fid] = sites[0]
+        if fid not in changed:
+            changed.append(fid)
     for fid in changed:
         an.site_nottag = {}
         ins, outs, obl = an.analyze(prog.fns[fid])
